@@ -126,7 +126,7 @@ V['C08'] = [
     ('kwds not forwarded', CORE, '            return fun(x, *args, **kwds)', '            return fun(x, *args)', 'F', 'R-FORWARD'),
     ('shape from the last row', FD, "        original_shape = np.shape(sequence[0])\n        f_del = np.vstack([np.ravel(r) for r in sequence])\n        one = np.ones(original_shape)\n        h = np.vstack([np.ravel(one * step) for step in steps])\n        _assert(f_del.size == h.size, 'fun did not return data of correct '\n                'size (it must be vectorized)')\n        return f_del, h, original_shape\n\n    def apply",
      "        original_shape = np.shape(sequence[0])\n        f_del = np.vstack([np.ravel(r) for r in sequence])\n        one = np.ones(original_shape)\n        h = np.vstack([np.ravel(one * step) for step in steps])\n        _assert(f_del.size == h.size, 'fun did not return data of correct '\n                'size (it must be vectorized)')\n        return f_del, h, np.shape(np.ravel(sequence[0]))\n\n    def apply", 'F', 'R-SHAPE'),
-    ('revert fix ae04deb (all-NaN column)', LIM, "        all_nan = np.all(np.isnan(errors), axis=0)\n        if np.any(all_nan):\n            # an element without any valid estimate must not affect the other elements\n            warnings.warn('All-NaN slice encountered')\n            errors = np.where(all_nan, 0.0, errors)\n", '        all_nan = np.zeros(shape[1], dtype=bool)\n', 'S', None),
+    ('revert fix ae04deb (all-NaN column)', LIM, "        all_nan = np.all(np.isnan(errors), axis=0)\n        if np.any(all_nan):\n            # an element without any valid estimate must not affect the other elements\n            warnings.warn('All-NaN slice encountered')\n            errors = np.where(all_nan, 0.0, errors)\n", '        all_nan = np.zeros(shape[1], dtype=bool)\n', 'F', 'R-ARGMIN'),
     ('np.abs -> abs', LIM, '        a_median = np.abs(median)', '        a_median = abs(median)', 'S', None),
     ('steps with NaN dropped for the whole array', CORE, "        fxi = self._eval_first(f, x_i)\n        results = [diff(f, fxi, x_i, h) for h in steps]\n", "        fxi = self._eval_first(f, x_i)\n        results = [diff(f, fxi, x_i, h) for h in steps]\n        if bool(np.isnan(results[0]).any()) and len(results) > self.n + self.order + 2:\n            results, steps = results[1:], steps[1:]\n", 'F', 'R-COLSEP'),
     ('every NaN error neutralised', LIM, '            errors = np.where(all_nan, 0.0, errors)', '            errors = np.where(np.isnan(errors), 0.0, errors)', 'F', 'R-ARGMIN'),
@@ -274,6 +274,27 @@ V['C19'] = [
     ('f0 cached by x only', SP, "kwargs=kwds, bounds=self.bounds, sparsity=self.sparsity)\n", "kwargs=kwds, bounds=self.bounds, sparsity=self.sparsity)\n        if getattr(self, '_x0', None) is None or not np.array_equal(x, self._x0):\n            self._x0, self._f0 = np.array(x, dtype=float), np.atleast_1d(self.fun(x, *args, **kwds))\n        options['f0'] = self._f0\n", 'F', 'R-REUSE'),
 ]
 
+
+V['C02'] += [
+    ('Gradient value in the shape of x, record left flat', CORE, "return result[0].squeeze(), result[1]", "return result[0].squeeze().reshape(np.shape(x)), result[1]", 'F', 'R-GATHER'),
+    ('Gradient value and record unpacked first', CORE, "return result[0].squeeze(), result[1]", "value, info = result\n            return value.squeeze(), info", 'S', None),
+]
+V['C08'] += [
+    ('selection masks NaN with +inf and uses argmin', LIM, "            arg_mins = np.nanargmin(errors, axis=0)\n            min_errors = np.nanmin(errors, axis=0)", "            masked = np.where(np.isnan(errors), np.inf, errors)\n            arg_mins = np.argmin(masked, axis=0)\n            min_errors = np.min(masked, axis=0)", 'S', None),
+    ('selection masks NaN with -inf', LIM, "            arg_mins = np.nanargmin(errors, axis=0)\n            min_errors = np.nanmin(errors, axis=0)", "            masked = np.where(np.isnan(errors), -np.inf, errors)\n            arg_mins = np.argmin(masked, axis=0)\n            min_errors = np.min(masked, axis=0)", 'F', 'R-ARGMIN'),
+]
+V['C09'] += [
+    ('method setter resets the step generator', CORE, "        self.fd_rule.method = method\n", "        self.fd_rule.method = method\n        self.step = None\n", 'F', 'R-HISTORY'),
+]
+V['C10'] += [
+    ('CStepGenerator swallows use_exact_steps', LIM, "self.path = options.pop('path', 'radial')", "self.path = options.pop('path', 'radial')\n        options.pop('use_exact_steps', None)", 'F', 'R-OPTIONS'),
+]
+V['C14'] += [
+    ('floor as if statement', EXT, "        abserr = max(abserr, 5.0*_EPS*abs(result))", "        floor = 5.0*_EPS*abs(result)\n        if floor > abserr:\n            abserr = floor", 'S', None),
+    ('floor as conditional expression', EXT, "        abserr = max(abserr, 5.0*_EPS*abs(result))", "        floor = 5.0*_EPS*abs(result)\n        abserr = abserr if abserr >= floor else floor", 'S', None),
+    ('floor turned into a cap', EXT, "        abserr = max(abserr, 5.0*_EPS*abs(result))", "        floor = 5.0*_EPS*abs(result)\n        abserr = abserr if abserr <= floor else floor", 'F', 'R-DEA-FLOOR'),
+    ('floor statement with the test turned around', EXT, "        abserr = max(abserr, 5.0*_EPS*abs(result))", "        floor = 5.0*_EPS*abs(result)\n        if floor < abserr:\n            abserr = floor", 'F', 'R-DEA-FLOOR'),
+]
 
 def apply_variant(root, fname, old, new):
     """-> scratch dir or None when the anchor is not present"""
